@@ -9,6 +9,8 @@ mod c11;
 mod c12;
 mod c13;
 mod c16;
+mod c17;
+mod c19;
 mod fw;
 mod indep;
 mod scn;
@@ -60,6 +62,8 @@ fn main() {
         "C12" => c12::check(tier),
         "C13" => c13::check(tier),
         "C16" => c16::check(tier),
+        "C17" => c17::check(tier),
+        "C19" => c19::check(tier),
         _ => {
             eprintln!("unknown check {id}");
             2
